@@ -1,18 +1,25 @@
 package server
 
 // C19 driver, handler level: POST /api/chat through the REAL ChatHandler (model created with the
-// real CreateHandler: TEMPLATE, SYSTEM, MESSAGE history), with the scheduler's loader mocked as in
-// routes_generate_test.go.  Observation point of the property: the prompt and image list handed
-// to the runner's Completion.
+// real CreateHandler: TEMPLATE, SYSTEM, MESSAGE history, PARAMETER num_ctx) and the REAL Scheduler
+// including its load path (`sched.load`, as InitScheduler wires it): only `newServerFn` is a mock, so
+// the runner carries the options the scheduler loaded it with (NumCtx clamped and multiplied by
+// the number of parallel slots, OLLAMA_NUM_PARALLEL = 1 / 2 / 4 / unset).  Observation point of the
+// property: the prompt and image list handed to the runner's Completion — they must be cut for
+// the REQUEST's context length (model options ⊕ request options), whatever the runner's copy says.
 //
-//   ops.txt : hchat <variant> <num_ctx> <srchex> <tmpl> <systemhex> <model msgs> <request msgs>
-//   impl.txt: load | ok imgs=<id:src:pre,…> prompt=<hex> | err:… | panic:…
+//   ops.txt : hchat <variant> <default num_ctx> <model num_ctx|-> <request num_ctx|-> <numParallel>
+//                   <srchex> <tmpl> <systemhex> <model msgs> <request msgs>
+//   impl.txt: load | ok loaded=<NumCtx given to newServerFn> imgs=<id:src:pre,…> prompt=<hex> | err:… | panic:…
 
 import (
 	"bytes"
 	"context"
+	"encoding/json"
 	"fmt"
+	"io"
 	"net/http"
+	"net/http/httptest"
 	"os"
 	"strconv"
 	"strings"
@@ -25,6 +32,7 @@ import (
 	"github.com/ollama/ollama/discover"
 	"github.com/ollama/ollama/fs/ggml"
 	"github.com/ollama/ollama/llm"
+	"github.com/ollama/ollama/template"
 	"github.com/ollama/ollama/zzverif"
 )
 
@@ -40,11 +48,44 @@ func c19MsgTokens(ms []c19Msg) string {
 	return sb.String()
 }
 
+// c19HRunner can go through the scheduler's real load path.
+type c19HRunner struct{ *mockRunner }
+
+func (c19HRunner) WaitUntilRunning(context.Context) error { return nil }
+func (c19HRunner) Ping(context.Context) error             { return nil }
+func (c19HRunner) Close() error                           { return nil }
+func (c19HRunner) EstimatedVRAM() uint64                  { return 0 }
+func (c19HRunner) EstimatedTotal() uint64                 { return 0 }
+func (c19HRunner) EstimatedVRAMByGPU(string) uint64       { return 0 }
+
+func c19CPU() discover.GpuInfoList {
+	g := discover.GpuInfo{Library: "cpu"}
+	g.TotalMemory = 64 << 30
+	g.FreeMemory = 64 << 30
+	return discover.GpuInfoList{g}
+}
+
+// c19Request is createRequest with a cancellable request context (the scheduler releases the
+// runner when the request's context ends).
+func c19Request(ctx context.Context, fn func(*gin.Context), body any) *httptest.ResponseRecorder {
+	w := NewRecorder()
+	c, _ := gin.CreateTestContext(w)
+	var b bytes.Buffer
+	if err := json.NewEncoder(&b).Encode(body); err != nil {
+		panic(err)
+	}
+	c.Request = (&http.Request{Body: io.NopCloser(&b)}).WithContext(ctx)
+	fn(c)
+	return w.ResponseRecorder
+}
+
 func TestVerifC19Handler(t *testing.T) {
 	gin.SetMode(gin.TestMode)
 	e := c19NewEnv(t)
 	out := zzverif.NewOut()
 	defer out.Close()
+	t.Setenv("OLLAMA_MAX_LOADED_MODELS", "1")
+	dflt := api.DefaultOptions().NumCtx
 
 	mock := mockRunner{CompletionResponse: llm.CompletionResponse{Done: true, DoneReason: llm.DoneReasonStop,
 		PromptEvalCount: 1, PromptEvalDuration: 1, EvalCount: 1, EvalDuration: 1}}
@@ -108,17 +149,52 @@ func TestVerifC19Handler(t *testing.T) {
 	}
 
 	idx := 0
-	runH := func(tc *c19Case, sys string, mm, req []c19Msg, limit int) {
+	// modelCtx / reqCtx < 0: not set (PARAMETER num_ctx of the model / "num_ctx" option of the request)
+	runH := func(tc *c19Case, sys string, mm, req []c19Msg, parallelEnv string, modelCtx, reqCtx int) {
 		i := idx
 		idx++
 		name := fmt.Sprintf("c19m%d", i)
 		cr := api.CreateRequest{Model: name, From: "c19base", Template: tc.src, System: sys, Messages: toAPI(mm), Stream: &stream}
+		if modelCtx >= 0 {
+			cr.Parameters = map[string]any{"num_ctx": modelCtx}
+		}
 		if w := createRequest(t, s.CreateHandler, cr); w.Code != http.StatusOK {
 			t.Fatalf("create %s: %d %s (template %q)", name, w.Code, w.Body.String(), tc.src)
 		}
 
-		line := fmt.Sprintf("hchat %d %d %s %s %s %s %s", e.fixed, limit, zzverif.Hex([]byte(tc.src)), tc.ast,
-			zzverif.Hex([]byte(sys)), c19MsgTokens(mm), c19MsgTokens(req))
+		// a fresh REAL scheduler for this request: real GetRunner / processPending / load
+		t.Setenv("OLLAMA_NUM_PARALLEL", parallelEnv)
+		loadedNumCtx, loadedParallel := 0, 0
+		sched := &Scheduler{
+			pendingReqCh:  make(chan *LlmRequest, 1),
+			finishedReqCh: make(chan *LlmRequest, 1),
+			expiredCh:     make(chan *runnerRef, 1),
+			unloadedCh:    make(chan any, 1),
+			loaded:        make(map[string]*runnerRef),
+			newServerFn: func(_ discover.GpuInfoList, _ string, _ *ggml.GGML, _, _ []string, opts api.Options, numParallel int) (llm.LlamaServer, error) {
+				loadedNumCtx, loadedParallel = opts.NumCtx, numParallel
+				return c19HRunner{&mock}, nil
+			},
+			getGpuFn:     c19CPU,
+			getCpuFn:     c19CPU,
+			reschedDelay: 250 * time.Millisecond,
+		}
+		sched.loadFn = sched.load
+		cs := Server{sched: sched}
+		sctx, scancel := context.WithCancel(context.Background())
+		go sched.Run(sctx)
+		rctx, rcancel := context.WithCancel(context.Background())
+		defer func() {
+			rcancel()
+			scancel()
+		}()
+
+		opt := func(v int) string {
+			if v < 0 {
+				return "-"
+			}
+			return strconv.Itoa(v)
+		}
 
 		called := false
 		var got llm.CompletionRequest
@@ -139,8 +215,11 @@ func TestVerifC19Handler(t *testing.T) {
 					}
 				}
 			}()
-			w := createRequest(t, s.ChatHandler, api.ChatRequest{Model: name, Messages: toAPI(req),
-				Options: map[string]any{"num_ctx": limit}, Stream: &stream})
+			creq := api.ChatRequest{Model: name, Messages: toAPI(req), Stream: &stream}
+			if reqCtx >= 0 {
+				creq.Options = map[string]any{"num_ctx": reqCtx}
+			}
+			w := c19Request(rctx, cs.ChatHandler, creq)
 			body = w.Body.String()
 			switch {
 			case w.Code == http.StatusOK && !called && strings.Contains(body, `"done_reason":"load"`):
@@ -163,7 +242,7 @@ func TestVerifC19Handler(t *testing.T) {
 				if len(imgs) > 0 {
 					is = strings.Join(imgs, ",")
 				}
-				impl = fmt.Sprintf("ok imgs=%s prompt=%s", is, zzverif.Hex([]byte(got.Prompt)))
+				impl = fmt.Sprintf("ok loaded=%d imgs=%s prompt=%s", loadedNumCtx, is, zzverif.Hex([]byte(got.Prompt)))
 			case w.Code == http.StatusInternalServerError && strings.Contains(body, "template:"):
 				impl = "err:template"
 			default:
@@ -172,7 +251,24 @@ func TestVerifC19Handler(t *testing.T) {
 		}()
 		// drop the model again: name resolution scans every manifest, so keeping them makes the run quadratic
 		createRequest(t, s.DeleteHandler, api.DeleteRequest{Model: name})
+		line := fmt.Sprintf("hchat %d %d %s %s %d %s %s %s %s %s", e.fixed, dflt, opt(modelCtx), opt(reqCtx), loadedParallel,
+			zzverif.Hex([]byte(tc.src)), tc.ast, zzverif.Hex([]byte(sys)), c19MsgTokens(mm), c19MsgTokens(req))
 		out.Case(line, impl)
+		out.Count(fmt.Sprintf("handler_loaded_parallel_%d", loadedParallel))
+		if modelCtx >= 0 {
+			out.Count("handler_model_has_num_ctx")
+		}
+		if reqCtx < 0 {
+			out.Count("handler_request_without_num_ctx")
+		}
+		// the context length of THIS request: request option, else model parameter, else default
+		lim := dflt
+		if modelCtx >= 0 {
+			lim = modelCtx
+		}
+		if reqCtx >= 0 {
+			lim = reqCtx
+		}
 		if impl == "panic:template-cut" {
 			out.L2("template-panic", line, "deleteNode else-list: POST /api/chat panics in template.Execute: interface conversion: parse.Node is nil, not *parse.ListNode")
 		}
@@ -186,6 +282,73 @@ func TestVerifC19Handler(t *testing.T) {
 		}
 		if len(req) > 0 && req[0].role == "s" {
 			out.Count("handler_request_starts_with_system")
+		}
+
+		// L2 (any template, conversations without images so that no content is rewritten): the prompt
+		// handed to the runner is the real template applied to system(<n) ++ conversation[n:], where
+		// [n:] is the longest recent run, all of whose shorter suffixes fit, for the REQUEST's context
+		// length `lim` — not for what the scheduler loaded the runner with.
+		if strings.HasPrefix(impl, "ok ") {
+			var conv []api.Message
+			conv = append(conv, toAPI(mm)...)
+			conv = append(conv, toAPI(req)...)
+			if req[0].role != "s" && sys != "" {
+				conv = append([]api.Message{{Role: "system", Content: sys}}, conv...)
+			}
+			images := false
+			for _, m := range conv {
+				images = images || len(m.Images) > 0
+			}
+			renderFrom := func(i int) (string, bool) {
+				var in []api.Message
+				for j := 0; j < i; j++ {
+					if conv[j].Role == "system" {
+						in = append(in, conv[j])
+					}
+				}
+				in = append(in, conv[i:]...)
+				var b bytes.Buffer
+				if err := e.tmplOf(tc).Execute(&b, template.Values{Messages: in}); err != nil {
+					return "", false
+				}
+				return b.String(), true
+			}
+			specPrompt := func(limit int) (string, int, bool) {
+				n := len(conv) - 1
+				for n > 0 {
+					r, ok := renderFrom(n - 1)
+					if !ok {
+						return "", 0, false
+					}
+					if len(strings.Fields(r)) > limit {
+						break
+					}
+					n--
+				}
+				r, ok := renderFrom(n)
+				return r, n, ok
+			}
+			if !images {
+				if want, n, ok := specPrompt(lim); ok {
+					out.Count("handler_l2_limit_evaluated")
+					if n > 0 {
+						out.Count("handler_l2_limit_truncating")
+						if _, n2, _ := specPrompt(lim * max(loadedParallel, 1)); n2 < n {
+							out.Count("handler_l2_limit_between_numctx_and_numctx_x_parallel")
+						}
+					}
+					if want != got.Prompt {
+						why := ""
+						for _, k := range []int{2, 4} {
+							if alt, n2, ok := specPrompt(lim * k); ok && alt == got.Prompt {
+								why = fmt.Sprintf(" (it is the prompt cut for %d x num_ctx = %d: run [%d:]; the runner was loaded with NumCtx %d for %d parallel slots)", k, lim*k, n2, loadedNumCtx, loadedParallel)
+								break
+							}
+						}
+						out.L2("handler-limit", line, fmt.Sprintf("the prompt sent to the runner is not the conversation cut for the request's num_ctx %d (retained run [%d:])%s", lim, n, why))
+					}
+				}
+			}
 		}
 
 		// L2, end to end, on templates that render every role where it stands (style 3) or the
@@ -219,7 +382,19 @@ func TestVerifC19Handler(t *testing.T) {
 			next := func() string { pos++; return f[pos-1] }
 			next()
 			next()
-			limit, _ := strconv.Atoi(next())
+			next() // default num_ctx: a fact of the tree under test
+			optv := func(x string) int {
+				if x == "-" {
+					return -1
+				}
+				v, _ := strconv.Atoi(x)
+				return v
+			}
+			modelCtx, reqCtx := optv(next()), optv(next())
+			parallelEnv := next()
+			if parallelEnv == "0" {
+				parallelEnv = ""
+			}
 			tc := &c19Case{style: c19StyleGenerated, src: string(zzverif.Unhex(next()))}
 			e.resolveStyle(tc)
 			e.tmplOf(tc)
@@ -245,7 +420,7 @@ func TestVerifC19Handler(t *testing.T) {
 			}
 			mm := readMsgs()
 			req := readMsgs()
-			runH(tc, sys, mm, req, limit)
+			runH(tc, sys, mm, req, parallelEnv, modelCtx, reqCtx)
 		}
 		return
 	}
@@ -291,12 +466,13 @@ func TestVerifC19Handler(t *testing.T) {
 			nreq = 0
 		}
 		src := 1
+		withImages := r.Chance(1, 3)
 		for j := 0; j < nreq; j++ {
 			m := c19Msg{role: zzverif.Pick(r, []string{"u", "a", "u", "a", "s", "t"}), content: words(j, "m")}
 			if j == 0 && r.Chance(1, 4) {
 				m.role = "s"
 			}
-			if r.Chance(1, 5) {
+			if withImages && r.Chance(1, 3) {
 				for k := r.Range(1, 2); k > 0; k-- {
 					m.imgs = append(m.imgs, c19Img{src: src, ok: true})
 					src++
@@ -314,14 +490,27 @@ func TestVerifC19Handler(t *testing.T) {
 			total += len(strings.Fields(req[j].content)) + 2
 			sizes = append(sizes, total)
 		}
+		// the scheduler's parallel slots, and a context length aimed at the suffix sizes and at those
+		// sizes divided by the number of slots (conversation between num_ctx and num_ctx x parallel)
+		parallelEnv := zzverif.Pick(r, []string{"1", "2", "4", "", "2", "4"})
 		limit := r.Range(1, 40)
-		if len(sizes) > 0 && r.Chance(2, 3) {
-			limit = zzverif.Pick(r, sizes) + r.Range(-3, 6)
+		if len(sizes) > 0 && r.Chance(3, 4) {
+			limit = max(1, zzverif.Pick(r, sizes)/zzverif.Pick(r, []int{1, 1, 2, 3, 4})+r.Range(-3, 6))
 		}
-		if r.Chance(1, 10) {
+		if r.Chance(1, 12) {
 			limit = 1 << 16
 		}
+		// where the context length comes from: request option, model PARAMETER, both, neither (default)
+		modelCtx, reqCtx := -1, limit
+		switch r.Intn(8) {
+		case 0:
+			modelCtx, reqCtx = limit, -1
+		case 1:
+			modelCtx = r.Range(1, 60) // overridden by the request
+		case 2:
+			reqCtx = -1 // default context length
+		}
 
-		runH(tc, sys, mm, req, limit)
+		runH(tc, sys, mm, req, parallelEnv, modelCtx, reqCtx)
 	}
 }
